@@ -20,6 +20,7 @@ class Edge:
     def __init__(self, src, dst, ctrl=None, select=None, guard=None, sync=None, assign=None, prob=None, order=0):
         self.src, self.dst, self.ctrl = src, dst, ctrl       # ("L", i) / ("B", j)
         self.select, self.guard, self.sync, self.assign, self.prob, self.order = select, guard, sync, assign, prob, order
+        self.selstyle = 0    # 0: `s : int[0,K]`   1: two binders   2: the binder shadows the global g2   3: ... the global clock gx
 
 
 class Tpl:
@@ -73,14 +74,24 @@ def t_rate(k):
     return "%d" % k, "(CONSTANT:INT %d)" % k
 
 
-def t_assign(k, with_select):
+SEL_NAME = {0: "s", 1: "s", 2: "g2", 3: "gx"}
+
+
+def t_assign(k, with_select, style=0):
     if with_select:
-        return "g1 = %d, g2 = s" % k, "(COMMA (ASSIGN (IDENTIFIER g1) (CONSTANT:INT %d)) (ASSIGN (IDENTIFIER g2) (IDENTIFIER s)))" % k
+        b = SEL_NAME[style]       # the update reads the (first) binder; a binder named like a global shadows it inside the edge
+        tgt = "g2" if b != "g2" else "ga"
+        return ("g1 = %d, %s = %s" % (k, tgt, b),
+                "(COMMA (ASSIGN (IDENTIFIER g1) (CONSTANT:INT %d)) (ASSIGN (IDENTIFIER %s) (IDENTIFIER %s)))" % (k, tgt, b))
     return "g1 = %d" % k, "(ASSIGN (IDENTIFIER g1) (CONSTANT:INT %d))" % k
 
 
-def t_select(k):
-    return "s : int[0,%d]" % k, "[s:(CONSTANT (RANGE (INT) <(CONSTANT:INT 0)> <(CONSTANT:INT %d)>))]" % k
+def t_select(k, style=0):
+    rng = "(CONSTANT (RANGE (INT) <(CONSTANT:INT 0)> <(CONSTANT:INT %d)>))"
+    b = SEL_NAME[style]
+    if style == 1:
+        return "s : int[0,%d], s2 : int[0,1]" % k, "[s:%s s2:%s]" % (rng % k, rng % 1)
+    return "%s : int[0,%d]" % (b, k), "[%s:%s]" % (b, rng % k)
 
 
 def t_sync(s):
@@ -114,10 +125,10 @@ def render_xml(m, queries=None):
         trs = []
         for e in t.edges:
             trs.append(X.transition(node_id(t, e.src), node_id(t, e.dst),
-                                    select=t_select(e.select)[0] if e.select is not None else None,
+                                    select=t_select(e.select, e.selstyle)[0] if e.select is not None else None,
                                     guard=t_guard(e.guard)[0] if e.guard is not None else None,
                                     sync=e.sync,
-                                    assign=t_assign(e.assign, e.select is not None)[0] if e.assign is not None else None,
+                                    assign=t_assign(e.assign, e.select is not None, e.selstyle)[0] if e.assign is not None else None,
                                     prob=t_prob(e.prob)[0] if e.prob is not None else None,
                                     controllable=e.ctrl, order=ORDERS[e.order]))
         tpls.append(X.template(t.name, params=params_text(t.params) if t.params else None,
@@ -170,13 +181,13 @@ def render_xta(m, chain=True):
             for e in t.edges:
                 body = ""
                 if e.select is not None:
-                    body += " select %s;" % t_select(e.select)[0]
+                    body += " select %s;" % t_select(e.select, e.selstyle)[0]
                 if e.guard is not None:
                     body += " guard %s;" % t_guard(e.guard)[0]
                 if e.sync is not None:
                     body += " sync %s;" % e.sync
                 if e.assign is not None:
-                    body += " assign %s;" % t_assign(e.assign, e.select is not None)[0]
+                    body += " assign %s;" % t_assign(e.assign, e.select is not None, e.selstyle)[0]
                 if e.prob is not None:
                     body += " probability %s;" % t_prob(e.prob)[0]
                 prev = t.edges[t.edges.index(e) - 1] if t.edges.index(e) > 0 else None
@@ -219,10 +230,10 @@ def expected(m, xml=True):
                 "dst": node_sym(t, e.dst) if e.dst[0] == "L" else None,
                 "dstb": node_sym(t, e.dst) if e.dst[0] == "B" else None,
                 "control": e.ctrl is not False,
-                "select": t_select(e.select)[1] if e.select is not None else "[]",
+                "select": t_select(e.select, e.selstyle)[1] if e.select is not None else "[]",
                 "guard": t_guard(e.guard)[1] if e.guard is not None else TRUE,
                 "sync": t_sync(e.sync)[1] if e.sync is not None else "()",
-                "assign": t_assign(e.assign, e.select is not None)[1] if e.assign is not None else TRUE,
+                "assign": t_assign(e.assign, e.select is not None, e.selstyle)[1] if e.assign is not None else TRUE,
                 "prob": t_prob(e.prob)[1] if e.prob is not None else TRUE})
         d["templates"].append(tj)
         tp[t.name] = {"params": list(t.params), "unbound": len(t.params), "mapping": {}, "templ": t.name}
@@ -364,11 +375,19 @@ def build(choose, common=False, bp_base=True):
                 plan.append((("B", 0), ("L", 0), "prob2"))
             plan.append((("L", nl - 1), ("L", nl - 1), "sync"))
             plan.append((("L", nl - 1), ("L", 0), "assign"))      # same source as the previous edge (chained form in XTA)
-            ne = choose(3, "T1.edgeset")
+            ne = choose(5, "T1.edgeset")
             if ne == 1:
                 plan = plan[:1] if plan else plan
             elif ne == 2:
                 plan = plan + [(("L", 0), ("L", 0), "guard"), (("L", 0), ("L", 0), "assign")]   # parallel self loops
+            elif ne == 3:
+                # four consecutive edges out of one location, the first with an empty body (XTA: a root and three chained transitions)
+                plan = plan + [(("L", 0), ("L", nl - 1), "empty"), (("L", 0), ("L", 0), "guard"), (("L", 0), ("L", nl - 1), "assign"),
+                               (("L", 0), ("L", 0), "sync")]
+            elif ne == 4:
+                # two chains in a row, the second starting right after the first
+                plan = [(("L", 0), ("L", 0), "full"), (("L", 0), ("L", nl - 1), "guard"), (("L", 0), ("L", 0), "empty"),
+                        (("L", nl - 1), ("L", 0), "empty"), (("L", nl - 1), ("L", nl - 1), "assign"), (("L", nl - 1), ("L", 0), "sync")] + plan
             for ei, (src, dst, kind) in enumerate(plan):
                 e = Edge(src, dst)
                 tag = "T1.E%d" % ei
@@ -381,7 +400,7 @@ def build(choose, common=False, bp_base=True):
                 if dv:
                     e.dst = [n for n in nodes if n != dst][dv - 1] if len(nodes) > 1 else dst
                 e.ctrl = [None, False, True][choose(3, tag + ".ctrl")]
-                has = {"full": (1, 1, 1, 1, 0), "guard": (0, 1, 0, 0, 0), "prob": (0, 0, 0, 1, 1), "prob2": (0, 0, 0, 0, 1),
+                has = {"empty": (0, 0, 0, 0, 0), "full": (1, 1, 1, 1, 0), "guard": (0, 1, 0, 0, 0), "prob": (0, 0, 0, 1, 1), "prob2": (0, 0, 0, 0, 1),
                        "sync": (0, 0, 1, 0, 0), "assign": (0, 0, 0, 1, 0)}[kind]
                 flip = [choose(2, tag + "." + lab) for lab in ("select", "guard", "sync", "assign", "prob")]
                 on = [bool(h) != bool(f) for h, f in zip(has, flip)]
@@ -392,6 +411,7 @@ def build(choose, common=False, bp_base=True):
                     on[4] = False
                 if on[0]:
                     e.select = 600 + ei + 1
+                    e.selstyle = choose(4, tag + ".selstyle")
                 if on[1]:
                     e.guard = k + 101
                 if on[2]:
